@@ -380,6 +380,25 @@ func isBisyncMarkerCommand(cmd bisyncAofCommand) bool {
 	return checkpoint.IsBisyncMarkerKey(key)
 }
 
+// isBisyncMarkerExpiryDeletion : DEL / UNLINK of marker keys only, what a Redis master emits
+// when it finds the marker key expired
+func isBisyncMarkerExpiryDeletion(cmd bisyncAofCommand) bool {
+	switch strings.ToLower(cmd.Cmd) {
+	case "del", "unlink":
+	default:
+		return false
+	}
+	if len(cmd.Args) == 0 {
+		return false
+	}
+	for _, arg := range cmd.Args {
+		if !checkpoint.IsBisyncMarkerKey(util.BytesToString(arg)) {
+			return false
+		}
+	}
+	return true
+}
+
 func parseBisyncMarkerCommand(cmd bisyncAofCommand) (*checkpoint.BisyncMarker, bool) {
 	// mirrored transaction 的入口特征是第一条控制命令写入 marker。
 	if strings.ToLower(cmd.Cmd) != "set" || len(cmd.Args) < 2 {
@@ -584,6 +603,15 @@ func (ro *RedisOutput) parseAofReplayUnits(replayQuit usync.WaitCloser, reader *
 			// in the stream: the output filters (key prefix / slot whitelists and blacklists,
 			// command blacklist) would otherwise drop the marker, and the business commands
 			// of the mirrored transaction would be sent back to the site they came from.
+			if txnSeen == 0 && isBisyncMarkerExpiryDeletion(bisyncAofCommand{Cmd: sCmd, Args: argv}) {
+				// Redis propagates the deletion of an expired key in front of the command that
+				// found it expired, inside the same transaction: a unit written after its marker
+				// key ran out arrives as MULTI / DEL marker / SET marker ... / EXEC. The deletion
+				// is the source's own bookkeeping of the tool's key and must not hide the marker
+				// that follows it.
+				prevOffset = endOffset
+				continue
+			}
 			if txnSeen == 0 && isBisyncMarkerCommand(bisyncAofCommand{Cmd: sCmd, Args: argv}) {
 				txnMirrored = true
 			}
